@@ -415,10 +415,26 @@ def sym_trunc(x):
     return SymInt(z3.If(t >= 0, z3.ToInt(t), -z3.ToInt(-t)))
 
 
+def _floor_int(t):
+    """z3 Int term equal to floor(t).  With an active engine: a fresh integer m pinned by the linear
+    constraints m <= t < m + 1 (one per distinct term, shared by floor and round)."""
+    if _CUR is None:
+        return z3.ToInt(t)
+    eng = _CUR
+    key = ("floor", z3.simplify(t).get_id())
+    if key in eng.memo:
+        return eng.memo[key][1]
+    m = z3.Int(f"floor!{next(eng.counter)}")
+    mr = z3.ToReal(m)
+    eng.solver.add(mr <= t, t < mr + 1)
+    eng.memo[key] = (t, m)
+    return m
+
+
 def sym_floor(x):
     if isinstance(x, SymInt):
         return x
-    return SymInt(z3.ToInt(x.t))
+    return SymInt(_floor_int(x.t))
 
 
 def sym_round(x, n=None):
@@ -447,7 +463,13 @@ def _round_half_even_int(t):
         r = z3.Int(f"round!{next(eng.counter)}")
         rr = z3.ToReal(r)
         half = z3.RealVal("1/2")
-        eng.solver.add(rr - half <= t, t <= rr + half, z3.Implies(t == rr + half, r % 2 == 0), z3.Implies(t == rr - half, r % 2 == 0))
+        # ties go to the even neighbour; evenness as r = 2k with a fresh k (linear; no mod)
+        k = z3.Int(f"roundk!{next(eng.counter)}")
+        eng.solver.add(rr - half <= t, t <= rr + half, z3.Implies(z3.Or(t == rr + half, t == rr - half), r == 2 * k))
+        # redundant (implied) link to the floor of the same term: without it the solver has to discover
+        # r in {floor, floor + 1} by itself, which it does not do reliably (probe: unknown at 60 s vs 0.01 s)
+        m = _floor_int(t)
+        eng.solver.add(z3.Or(r == m, r == m + 1))
         eng.memo[key] = (t, r)
         return r
     fl = z3.ToInt(t)
